@@ -236,16 +236,37 @@ def m10(model: Model, rep: Report):
         raise AnalysisError(f"{construct}: {show(v)[:140]} is not one mapping over the qubits; not read")
     key, val, gens = v[1], v[2], v[3]
     dom, conds = gens[0]
-    positional = any(x[0] == "call" and x[1] in ("enumerate", "range") for x in subterms(dom, lambda t: t[0] == "call")) or \
-        any(x[0] == "call" and isinstance(x[1], tuple) and x[1][0] == "attr" and x[1][2] == "index" for x in subterms(key, lambda t: t[0] == "call"))
-    mapped = key[0] == "call" and isinstance(key[1], tuple) and key[1][0] == "attr" and key[1][1] == s and key[1][2] == "map_qubit_id_to_circuit_index"
-    if mapped:
-        args = list(key[2]) + [a for _, a in key[3]]
-        ok = dom == ("attr", s, "qubit_ids") and not conds and args == [val] and val[0] == "bound"
-    elif positional:
-        ok = False
+    # dict(zip(<circuit indices of the qubits>, <the qubits>)): the pairs of the same mapping, written as two parallel lists over the same qubit list
+    if dom[0] == "call" and dom[1] == "zip" and len(dom[2]) == 2 and not dom[3] and not conds and key[0] == "item" and key[2] == 0 and val[0] == "item" and val[2] == 1 \
+            and key[1] == val[1] and key[1][0] == "bound":
+        ks, vs = dom[2]
+        want_q = ("attr", s, "qubit_ids")
+        ks_ok = False
+        if ks[0] == "comp" and len(ks[3]) == 1 and ks[3][0] == (want_q, ()):
+            e_ = ks[2]
+            a_ = (list(e_[2]) + [x for _, x in e_[3]]) if e_[0] == "call" else []
+            ks_ok = e_[0] == "call" and e_[1] == ("attr", s, "map_qubit_id_to_circuit_index") and len(a_) == 1 and a_[0][0] == "bound"
+        elif ks[0] == "call" and ks[1] in ("map", "list"):
+            inner = ks if ks[1] == "map" else (ks[2][0] if ks[2] else None)
+            ks_ok = inner is not None and inner[0] == "call" and inner[1] == "map" and len(inner[2]) == 2 and inner[2][1] == want_q and \
+                inner[2][0] in (("attr", s, "map_qubit_id_to_circuit_index"), ("fn", f"{C.name}.map_qubit_id_to_circuit_index"))
+        if ks_ok:
+            rep.check(vs == want_q, "C13.M10", construct, f.loc, found=show(v), required="{self.map_qubit_id_to_circuit_index(q): q for q in self.qubit_ids}",
+                      what="the circuit indices and the qubits they are paired with come from different lists", detail="channel-map")
+            key = None
+    if key is None:
+        ok = True      # the zip form was decided above
     else:
-        raise AnalysisError(f"{construct}: key {show(key)[:120]} is neither map_qubit_id_to_circuit_index(q) nor a list position; not read")
+        positional = any(x[0] == "call" and x[1] in ("enumerate", "range") for x in subterms(dom, lambda t: t[0] == "call")) or \
+            any(x[0] == "call" and isinstance(x[1], tuple) and x[1][0] == "attr" and x[1][2] == "index" for x in subterms(key, lambda t: t[0] == "call"))
+        mapped = key[0] == "call" and isinstance(key[1], tuple) and key[1][0] == "attr" and key[1][1] == s and key[1][2] == "map_qubit_id_to_circuit_index"
+        if mapped:
+            args = list(key[2]) + [a for _, a in key[3]]
+            ok = dom == ("attr", s, "qubit_ids") and not conds and args == [val] and val[0] == "bound"
+        elif positional:
+            ok = False
+        else:
+            raise AnalysisError(f"{construct}: key {show(key)[:120]} is neither map_qubit_id_to_circuit_index(q) nor a list position; not read")
     rep.check(ok, "C13.M10", construct, f.loc, found=show(v), required="{self.map_qubit_id_to_circuit_index(q): q for q in self.qubit_ids}",
               what="the channel map is keyed by the position of a qubit in a list (or covers other qubits), not by its circuit index: for a description whose channels are not "
                    "0..n-1 in listing order the calibration block lands on other channels than the experiment blocks and the kernels' calibration indices describe acquisitions "
